@@ -110,6 +110,17 @@ def decAtpLabel (j : Json) : R TraceLabel := do
   | "sSend" => return .lab (.sSend (← decAtpMsg (← field j "m")))
   | "sEof" => return .sEof
   | "envPut" => return .lab (.envPut (← decAtpItem (← field j "it")))
+  | "envLate" => do
+    let m ← field j "m"
+    let r ← natField m "r"
+    let cm : CMsg ← match (← getStr (← field m "t")) with
+      | "start" => pure CMsg.startOutput
+      | "ws" => pure (CMsg.workStart r)
+      | "ws1" => pure CMsg.workStartV1
+      | "sig" => pure (CMsg.signal r)
+      | "cdone" => pure CMsg.clientDone
+      | t => throw s!"bad client message kind {t}"
+    return .lab (.envLate cm)
   | _ => throw s!"unknown label {l}"
 
 /-- insertion sort on naturals / on entries by run (small lists) -/
